@@ -80,7 +80,7 @@ def _build():
             nm = 'hdr[%s|%s]' % (lk, m)
             if nm in CASES:
                 continue
-            _add(nm, Q(items=items, **mods[m]), H3, quick=(j == 0 and lk in ('a2,a1,NR,expr-as,5', 'arr2,arr1-AS,len', 'star,NR', 'a3,a4', 'nested,litc,tup', 'lit,a2,star,a2')) or m == 'count')
+            _add(nm, Q(items=items, **mods[m]), H3, a=(['sss'] if m == 'count' else None), quick=(j == 0 and lk in ('a2,a1,NR,expr-as,5', 'arr2,arr1-AS,len', 'star,NR', 'a3,a4', 'nested,litc,tup', 'lit,a2,star,a2')) or m == 'count')
     _add('hdr[a1,a2|count]', Q(items=[fa(1), fa(2)], distinct='count'), H3, quick=True)
     _add('hdr[star|count]', Q(items=[STAR], distinct='count'), H3)
     _add('hdr[a1-as|count]', Q(items=[alias(fa(1), 'k')], distinct='count'), H3)
